@@ -180,8 +180,14 @@ func (x *Exec) Discharge(cfg *SolverCfg) []*Result {
 		} else {
 			rel := relevant(as, o.PC, o.Cond)
 			rel = append(rel, o.PC)
-			script = term.Script(rel, o.Cond, nil, true)
-			r.Size = term.Size(append(rel, o.Cond)...)
+			goal := o.Cond
+			if x.Mode == ModeProof {
+				var sks []*T
+				goal = skolemize(goal, &sks)
+				rel = append(rel, instances(rel, sks)...)
+			}
+			script = term.Script(rel, goal, nil, true)
+			r.Size = term.Size(append(rel, goal)...)
 		}
 		r.Script = script
 		if os.Getenv("GOVC_DEBUG") != "" && len(script) > 20000 {
@@ -215,6 +221,33 @@ func (x *Exec) Discharge(cfg *SolverCfg) []*Result {
 	}
 	close(ch)
 	wg.Wait()
+	// second chance: an obligation that was only UNDECIDED (solver timeout, e.g. on a loaded
+	// machine) is retried alone with a much longer timeout before it is reported
+	for _, j := range jobs {
+		r := results[j.i]
+		if r.Verdict != Undecided || r.Obl.Cover {
+			continue
+		}
+		file := filepath.Join(tmp, fmt.Sprintf("retry%d.smt2", j.i))
+		os.WriteFile(file, []byte(j.script), 0o644)
+		long := &SolverCfg{Timeout: cfg.Timeout * 6, Workers: 1}
+		first := r.Seconds
+		r.Seconds = 0
+		runPortfolio(long, r, file)
+		for k, v := range long.TimeBySol {
+			cfg.addTime(k, v)
+		}
+		for k, v := range long.CountBy {
+			for i := 0; i < v; i++ {
+				cfg.count(k)
+			}
+		}
+		r.Seconds += first
+		if r.Verdict == Proved {
+			r.Solver += "(retry)"
+		}
+		os.Remove(file)
+	}
 	if cfg.KeepDir != "" {
 		for _, r := range results {
 			if r.Verdict != Proved && !r.Trivial {
